@@ -387,6 +387,7 @@ theorem inv_step {Tok : Type} [DecidableEq Tok] (C : Crypto Tok) (n : Node) (op 
     split
     · exact ⟨⟨h.tok.lt, h.tok.le, h.tok.shape⟩, wf_addValues C _ _ _ _ _ h.wf⟩
     · exact h
+  | recvTok nid => exact ⟨⟨h.tok.lt, h.tok.le, h.tok.shape⟩, h.wf⟩
 
 theorem inv_run {Tok : Type} [DecidableEq Tok] (C : Crypto Tok) (ops : List (Op Tok)) (n : Node) (h : Inv n) :
     Inv (n.run C ops) := by
@@ -679,6 +680,7 @@ theorem secInv_step {Tok : Type} [DecidableEq Tok] (C : Crypto Tok) (n : Node) (
   | cache key values loc =>
     simp only [Node.step, Node.cacheStore]
     split <;> exact h
+  | recvTok nid => exact h
 
 theorem secInv_run {Tok : Type} [DecidableEq Tok] (C : Crypto Tok) (ops : List (Op Tok)) (n : Node) (h : SecInv n) :
     SecInv (n.run C ops) := by
@@ -760,6 +762,7 @@ theorem cleanInv_step {Tok : Type} [DecidableEq Tok] (C : Crypto Tok) (n : Node)
   | cache key values loc =>
     simp only [Node.step, Node.cacheStore]
     split <;> exact h
+  | recvTok nid => exact h
 
 theorem cleanInv_run {Tok : Type} [DecidableEq Tok] (C : Crypto Tok) (ops : List (Op Tok)) (n : Node) (h : CleanInv n) :
     CleanInv (n.run C ops) := by
@@ -909,6 +912,7 @@ theorem allStored_step {Tok : Type} [DecidableEq Tok] (C : Crypto Tok) (n : Node
     · exact allStored_addValues C _ _ _ _ _ h
         (fun b hb => keepLocal_sizes values b (List.mem_reverse.mp hb))
     · exact h
+  | recvTok nid => exact h
 
 theorem allStored_run {Tok : Type} [DecidableEq Tok] (C : Crypto Tok) (ops : List (Op Tok)) (n : Node)
     (h : n.store.AllStored C) : (n.run C ops).store.AllStored C := by
@@ -1024,6 +1028,7 @@ theorem timed_step {Tok : Type} [DecidableEq Tok] (C : Crypto Tok) (n : Node) (o
     split
     · exact timed_addValues C _ _ _ _ _ h (Nat.le_refl _)
     · exact h
+  | recvTok nid => exact h
 
 theorem timed_run {Tok : Type} [DecidableEq Tok] (C : Crypto Tok) (ops : List (Op Tok)) (n : Node)
     (h : n.store.Timed n.now) : (n.run C ops).store.Timed (n.run C ops).now := by
